@@ -194,9 +194,31 @@ var invFuncs = []invFunc{
 	mkInv("func(error,int)", func(e error, a int) bigslice.Slice { ran(); return aSlice() }),
 	mkInv("func(...int)", func(a ...int) bigslice.Slice { ran(); return aSlice() }),
 	mkInv("func(int,int,int)", func(a, b, c int) bigslice.Slice { ran(); return aSlice() }),
+	mkInv("func(IDs)", func(a IDs) bigslice.Slice { ran(); return aSlice() }),
+	mkInv("func(Table)", func(a Table) bigslice.Slice { ran(); return aSlice() }),
+	mkInv("func(map[string]int)", func(a map[string]int) bigslice.Slice { ran(); return aSlice() }),
+	mkInv("func(int,Table)", func(n int, a Table) bigslice.Slice { ran(); return aSlice() }),
+	mkInv("func(Fn)", func(a Fn) bigslice.Slice { ran(); return aSlice() }),
+	mkInv("func(func(int)int)", func(a func(int) int) bigslice.Slice { ran(); return aSlice() }),
+	mkInv("func(<-chan int)", func(a <-chan int) bigslice.Slice { ran(); return aSlice() }),
+	mkInv("func(chan<- int)", func(a chan<- int) bigslice.Slice { ran(); return aSlice() }),
+	mkInv("func(chan int)", func(a chan int) bigslice.Slice { ran(); return aSlice() }),
+	mkInv("func(Ch)", func(a Ch) bigslice.Slice { ran(); return aSlice() }),
 }
 
 var seven = 7
+
+// named / unnamed pairs of composite types, and directional channels: types that
+// are assignable to each other without being the same type.
+type IDs []int
+type Table map[string]int
+type Fn func(int) int
+type Ch chan int
+
+var (
+	aChan  = make(chan int)
+	plainF = func(a int) int { ran(); return a }
+)
 
 // invArgs is the alphabet of argument values; argument lists are all tuples of
 // length 0..3 over it.
@@ -215,4 +237,13 @@ var invArgs = []struct {
 	{"aSlice", aSlice()},
 	{"*myErr", &myErr{}},
 	{"2.5", 2.5},
+	{"IDs{1}", IDs{1}},
+	{"Table{}", Table{"a": 1}},
+	{"map[string]int{}", map[string]int{"a": 1}},
+	{"Fn", Fn(plainF)},
+	{"func(int)int", plainF},
+	{"chan int", aChan},
+	{"<-chan int", (<-chan int)(aChan)},
+	{"chan<- int", (chan<- int)(aChan)},
+	{"Ch", Ch(aChan)},
 }
